@@ -83,8 +83,8 @@ func TestSelfIewalkHandAnalysed(t *testing.T) {
 			t.Fatalf("prefix of %d octets accepted", i)
 		}
 	}
-	for _, fam := range []string{"choice3", "length"} {
-		if _, err := iewalk.ParsePDU(garble(refamf.Fault{Garbage: fam}, good)); err == nil {
+	for _, fam := range []string{"choice3", "length", "stale-prefix", "oversize2048", "otherproc", "failure-truncated"} {
+		if _, err := iewalk.ParsePDU(garble(refamf.Fault{Garbage: fam, PrefixLen: 3}, good, good)); err == nil {
 			t.Fatalf("garbage family %s accepted", fam)
 		}
 	}
